@@ -6,35 +6,8 @@ use crate::refmath;
 use crate::util::*;
 use fips204::verif_hooks as vh;
 use serde_json::{json, Value};
-use sha3::digest::{ExtendableOutput, Update, XofReader};
 
-pub fn shake256(parts: &[&[u8]], n: usize) -> Vec<u8> {
-    let mut h = sha3::Shake256::default();
-    for p in parts { h.update(p); }
-    let mut out = vec![0u8; n];
-    h.finalize_xof().read(&mut out);
-    out
-}
-
-pub fn msg_of(p: &mut Prng, class: u64) -> Vec<u8> {
-    let n = match class % 7 { 0 => 0, 1 => 1, 2 => 135, 3 => 136, 4 => 137, 5 => 4096, _ => 33 + p.below(200) as usize };
-    p.bytes(n)
-}
-pub fn ctx_of(p: &mut Prng, class: u64) -> Vec<u8> {
-    let n = match class % 5 { 0 => 0, 1 => 1, 2 => 255, 3 => 17, _ => p.below(256) as usize };
-    p.bytes(n)
-}
-
-/// The harness's own reading of M' (Algorithms 2-5); every use is re-judged by TLC (event field "mp").
-pub fn format_msg(mode: &str, ctx: &[u8], m: &[u8]) -> Vec<u8> {
-    let mut v = vec![if mode == "pure" { 0u8 } else { 1u8 }, ctx.len() as u8];
-    v.extend_from_slice(ctx);
-    match ph_of(mode) {
-        None => v.extend_from_slice(m),
-        Some(ph) => { let (oid, d, n) = vh::hash_message(m, &ph); v.extend_from_slice(&oid); v.extend_from_slice(&d[..n]); }
-    }
-    v
-}
+pub use crate::msgfmt::{ctx_of, format_msg, msg_of, shake256};
 
 fn rnglog_ok_shape(r: &ScriptRng) -> Value { r.log_json() }
 
@@ -154,7 +127,7 @@ pub fn hunt<S: MlDsa>(seed: u64, nsign: usize, nfull: usize, out: &mut Out) {
     let (e1, e2) = (S::GAMMA1 - S::beta(), S::GAMMA2 - S::beta());
     let mut rare: Vec<(i64, Vec<u8>, [u8; 32], Vec<u8>, usize, u32)> = vec![];
     for i in 0..nsign {
-        let (sk, skb) = if i % 3 == 2 { (&sk1, &skb1) } else { (&sk0, &skb0) };
+        let (sk, skb) = if i % 2 == 1 { (&sk1, &skb1) } else { (&sk0, &skb0) };
         let mp = p.bytes(8 + (i % 40));
         let rnd = p.arr32();
         vh::trace_start();
